@@ -151,6 +151,30 @@ def _structure(out, rfi, obs):
         vf = np.asarray(std_crv(gi.astype(float)), dtype=float)
         obs.claim('params_consistent', not raised(vi) and bool(np.allclose(np.asarray(vi, dtype=float), vf, rtol=1e-12)) and np.array_equal(gi, keep),
                   lambda: 'std_crv on an integer array (%s): %r, on the same values as floats %r' % (np.dtype(dt).name, vi, vf.tolist()))
+    # a buffer that is refilled in place between two evaluations (the same array object, other numbers)
+    buf = grid.copy()
+    first = np.asarray(std_crv(buf), dtype=float)
+    bfirst = np.asarray(beads_model(buf), dtype=float)
+    buf *= 0.5
+    second, bsecond = call(std_crv, buf), call(beads_model, buf)
+    exp2 = np.exp(b_fit) * buf ** m_fit
+    obs.claim('params_consistent', not raised(second) and bool(np.allclose(np.asarray(second, dtype=float), exp2, rtol=1e-9, atol=0))
+              and bool(np.allclose(first, expect, rtol=1e-9, atol=0)),
+              lambda: 'std_crv on an array that was halved in place since the last evaluation: %r, formula %r' % (np.asarray(second)[:3], exp2[:3].tolist()))
+    obs.claim('model_identity', not raised(bsecond) and bool(np.allclose(np.asarray(bsecond, dtype=float), exp2 - auto_fit, rtol=1e-9, atol=1e-9 * max(1.0, auto_fit)))
+              and bool(np.allclose(bfirst, expect - auto_fit, rtol=1e-9, atol=1e-9 * max(1.0, auto_fit))),
+              'beads_model on an array that was halved in place since the last evaluation != std_crv - autofluorescence')
+    # a whole sample's worth of events at once (more than 2**16 values, not a multiple of any round block size)
+    if int(round(1e6 * abs(m_fit))) % 8 == 0:
+        big = np.exp(np.linspace(math.log(min(rfi)) - 1.0, math.log(max(rfi)) + 1.0, 2 * 65536 + 4465))
+        big[1::2] *= -1.0
+        vb = call(std_crv, big)
+        expb = np.sign(big) * np.exp(b_fit) * np.abs(big) ** m_fit
+        obs.claim('params_consistent', not raised(vb) and np.asarray(vb).shape == big.shape and bool(np.allclose(np.asarray(vb, dtype=float), expb, rtol=1e-9, atol=0)),
+                  lambda: 'std_crv on %d events differs from the formula at %d places (first at index %r)' % (
+                      big.size, int(np.sum(~np.isclose(np.asarray(vb, dtype=float), expb, rtol=1e-9, atol=0))),
+                      int(np.argmax(~np.isclose(np.asarray(vb, dtype=float), expb, rtol=1e-9, atol=0)))))
+        obs.label('whole_sample_evaluated')
     return sc, grid
 
 
